@@ -12,11 +12,11 @@ go build -o "$SCR/yieldgen" ./cmd/yieldgen || exit 2
 "$SCR/yieldgen" "$REPO" "$SCR/instr" "$SCR/instr-overlay.json" "$V/shim/verifsimrt/rt.go" > "$SCR/yieldgen.log" || { cat "$SCR/yieldgen.log"; exit 2; }
 "$V/bin/mkoverlay" "$SCR/plain-overlay.json" || exit 2
 "$V/bin/mkoverlay" "$SCR/sched-overlay.json" "$SCR/instr-overlay.json" || exit 2
-go build -tags verif -overlay "$SCR/plain-overlay.json" -o "$SCR/c11hist" ./props/c11hist &
+go build ${VERIF_MODFLAG:-} -tags verif -overlay "$SCR/plain-overlay.json" -o "$SCR/c11hist" ./props/c11hist &
 p1=$!
-go build -tags verif -overlay "$SCR/sched-overlay.json" -o "$SCR/c11sched" ./props/c11sched &
+go build ${VERIF_MODFLAG:-} -tags verif -overlay "$SCR/sched-overlay.json" -o "$SCR/c11sched" ./props/c11sched &
 p2=$!
-go build -race -tags verif -overlay "$SCR/sched-overlay.json" -o "$SCR/c11sched_race" ./props/c11sched &
+go build ${VERIF_MODFLAG:-} -race -tags verif -overlay "$SCR/sched-overlay.json" -o "$SCR/c11sched_race" ./props/c11sched &
 p3=$!
 rc=0
 wait $p1 || rc=2; wait $p2 || rc=2; wait $p3 || rc=2
